@@ -286,7 +286,11 @@ Inductive op :=
 | OpApply (nms : list Z)                      (* module.updater(nms...) *)
 | OpSetParam (nm : Z) (v : tensor)            (* module.nm = v *)
 | OpNewUpdater (nms : list Z) (f : option (list E -> E))   (* module.updater = Updater(module, nms..., reduction=f) *)
-| OpDelUpdater.                               (* del module.updater *)
+| OpDelUpdater                                (* del module.updater *)
+| OpTrainerUpdate (cells : list Z).           (* CellTrainer.update(kwargs...) for a trainer whose registered cells wrap the
+                                                 connections cells (0 = this module, anything else = another module):
+                                                 for updater in unique(filter(not None, map(cell.updater))): updater(kwargs...)
+                                                 (learn/base.py:305-316); keyword arguments are ignored by Accumulator.forward *)
 
 (* getattr(module.updater, nm): AttributeError on None and on an unknown name *)
 Definition find_acc (w : world) (nm : Z) : res (list (Z * acc) * acc) :=
@@ -434,6 +438,15 @@ Definition step (w : world) (o : op) : world * res out :=
             Ok OUnit)
       else (w, Err ERuntime)
   | OpDelUpdater => (mkWorld (params w) None, Ok OUnit)
+  | OpTrainerUpdate cells =>
+      (* the module's updater is called ONCE however many cells share it; a cell whose updater is None is skipped;
+         Updater.forward() applies every accumulator and clears nothing *)
+      if existsb (Z.eqb 0) cells
+      then match upd w with
+           | None => (w, Ok OUnit)
+           | Some us => finish (updater_forward (params w) us [])
+           end
+      else (w, Ok OUnit)
   end.
 
 Fixpoint run (w : world) (ops : list op) : world :=
